@@ -89,8 +89,9 @@ Proof. unfold drop_reply. destruct (o_reply c) eqn:E; try apply cext_refl.
 Lemma cext_close_chan c : cext c (close_chan c).
 Proof. repeat split; [now apply items_same|now left]. Qed.
 Lemma cext_fill p c : (match p with Some r => mine c r | None => True end) -> cext c (fill_reply p c).
-Proof. intros Hp. unfold fill_reply. destruct (waiting c); [|apply cext_refl]. destruct (o_reply c) eqn:E; try apply cext_refl.
-  repeat split; [now apply items_same|]. right. cbn. rewrite E. split; [reflexivity|]. destruct p; exact Hp. Qed.
+Proof. intros Hp. unfold fill_reply. destruct (o_reply c) eqn:E; try apply cext_refl. destruct (waiting c).
+  - repeat split; [now apply items_same|]. right. cbn. rewrite E. split; [reflexivity|]. destruct p; exact Hp.
+  - repeat split; [now apply items_same|]. right. cbn. rewrite E. now split. Qed.
 (* updates that touch neither identity nor what the caller can receive *)
 Lemma cext_same c c' : o_mid c' = o_mid c -> o_kind c' = o_kind c -> o_items c' = o_items c -> o_reply c' = o_reply c -> cext c c'.
 Proof. intros M K I R. repeat split; try assumption; [now apply items_same|left; now symmetry]. Qed.
